@@ -3,7 +3,7 @@ from __future__ import annotations
 
 from ..driver import Knockout, sub_nth, sub_once
 from ..report import Ctx
-from ..rules import gatesum, tableau
+from ..rules import gatesum, shapes, tableau
 from ..rules.tableau import CLIFF, STABF
 
 EXPLANATION = (
@@ -25,6 +25,7 @@ def run(ctx: Ctx) -> None:
     tableau.rule_rowops(ctx)
     gatesum.rule_derived_gates(ctx)
     rule_wrappers(ctx)
+    shapes.rule_removal_order(ctx)
     ctx.floor("own.tableau", 30)
     ctx.floor("num.rowcol", 3)
     ctx.floor("own.rowops", 8)
@@ -47,6 +48,7 @@ def rule_wrappers(ctx: Ctx) -> None:
 
 
 KNOCKOUTS = [
+    Knockout("removal-ascending", CLIFF, sub_once("    removal = sorted(total - keep, reverse=True)", "    removal = sorted(total - keep)"), "order.removal", "partial_trace"),
     Knockout("C3-external-nqubits", CLIFF,
              sub_once("    return insert_qubit(tableau, tableau.n_qubits)", "    tableau.n_qubits += 1\n    return insert_qubit(tableau, tableau.n_qubits - 1)"),
              "own.tableau", "n_qubits"),
